@@ -94,6 +94,9 @@ func loadSpecs(e *Engine, moduleDir string) error {
 			return err
 		}
 	}
+	if os.Getenv("GOCV_NO_REBIND") == "" {
+		e.rebindNotes = e.rebindFunctions()
+	}
 	return nil
 }
 
